@@ -587,6 +587,14 @@ func (s *Subscription) Event(event *rescache.ResourceEvent) {
 
 		// Discard any event prior to resourceSubscription being loaded or disposed
 		if s.resourceSub == nil {
+			// A delete event may reach a subscriber still waiting for the
+			// resource, when it has been loaded through another query
+			// normalized to the same one. The resource subscription has
+			// released the subscriber, which will not be loaded.
+			if event.Event == "delete" && s.state == stateLoading && s.err == nil {
+				s.err = reserr.ErrNotFound
+				s.doneLoading()
+			}
 			return
 		}
 
